@@ -10,6 +10,13 @@
                     returning Some / Ok (R3 arity: `[_, a, b]`, `len() == 3`, split_first + try_into::<&[_; N]> are one fact)
   nested_must()     FORALL effects of loop nests, outer loops over literal tables unrolled (R4 SBOM table)
   written_data()    bytes written to a created file, also via `File::create(p).and_then(|f| f.write_all(d))`
+  self_updates()    what a builder setter `fn f(mut self, x) -> Self` changes in self (field := v / push(v) / other), R8
+  elem_pos()        which element of a slice parameter a value is (slice patterns, indexing, get, split_first + array), R3
+  is_argv() / name_spine()   the complete argv / the steps between argv and the compared executable name, R2 / R3
+  chain_always()    a write moved into helpers is unconditional and checked at every level of the call chain, R4
+  raised_errors()   unwrap / expect / panics / diverging handlers inside a phase (errors must be returned), R4
+  sbom_path_shape() <dir>/<name + per-format text>, total and injective in the format, R4
+  elsewhere()       fixed absolute locations independent of the phase arguments (telemetry of the trace feature)
 """
 from .lib.discard import diverges
 from .lib.paths import strip
@@ -676,3 +683,368 @@ def same_elements(coll):
     while coll[0] == 'call' and len(coll[2]) == 1 and iters._is_source(coll[1]) and coll[1].endswith(iters.SAME_ELEMS):
         coll = strip(coll[2][0])
     return coll
+
+
+# ---- result builders (R8) -------------------------------------------------------------------------------
+# The buildpack hands "what it provides" to the runtime through the public builders of build.rs / detect.rs; the inner
+# result enums are crate-private, so the builders are the only carriers.  A setter `fn f(mut self, x) -> Self` is read as
+# the set of changes it makes to `self` before returning it: field assignments, `Vec::push` through `&mut self.field`,
+# or a struct literal of the builder type whose other fields are `self.<same field>` (struct-update spelling).
+PUSH = ('std::vec::Vec::<T, A>::push', 'std::vec::Vec::<T>::push')
+SET_SOME = ('std::option::Option::<T>::replace', 'std::option::Option::<T>::insert')
+
+
+def self_updates(prog, sl, f):
+    """{field: [(op, value)]} with op 'set' | 'push' | 'other' for the changes f makes to its by-value `self` before
+    returning it; None when what f returns is not recognisably `self`"""
+    from .lib.mir import op_place
+    if f.argc < 1:
+        return None
+    ret = strip(sl.local(f, 0))
+    me = ('param', f.path, 0, f.local_name(1))
+    ups = {}
+    live = f.reachable(0)
+    if ret[0] == 'agg' and ret[1] is not None and f.args and ret[1] == str(f.args[0]).split('<')[0]:
+        # `Self { a: Some(x), ..self }`
+        for name, v in ret[3]:
+            if strip(v) != ('field', me, name):
+                ups.setdefault(name, []).append(('set', v))
+        clean = True
+    elif ret == me:
+        clean = False
+    else:
+        return None
+    if f.whole_defs(1):
+        return None
+    rets = [b for b in f.return_blocks() if b in live]
+
+    def always(bb, op):
+        # a change made on some paths only is not "the setter stores its argument"
+        return op if rets and all(f.dominates(bb, r) for r in rets) else 'conditional ' + op
+    refs = {}
+    for bi, b in enumerate(f.blocks):
+        if b.get('cleanup') or bi not in live:
+            continue
+        for si, st in enumerate(b['s']):
+            if st[0] == '=' and st[2]['r'] in ('ref', 'rawptr') and st[2]['p'][0] == 1 and (st[2].get('mut') or st[2]['r'] == 'rawptr'):
+                p = [x for x in st[2]['p'][1:] if x != '*']
+                if len(st[1]) == 1 and len(p) == 1 and p[0].startswith('.'):
+                    refs[st[1][0]] = p[0][1:]
+                else:
+                    ups.setdefault('*', []).append(('other', 'mutable borrow of self'))
+    for dd in f.partial_defs(1):
+        kind, bi, si, rv, pl = dd
+        if f.blocks[bi].get('cleanup') or bi not in live:
+            continue
+        p = [x for x in pl[1:] if x != '*']
+        if len(p) != 1 or not p[0].startswith('.'):
+            ups.setdefault('*', []).append(('other', 'nested write'))
+            continue
+        if kind == 'stmt':
+            ups.setdefault(p[0][1:], []).append((always(bi, 'set'), sl._rvalue(f, rv, set(), 0, (bi, si))))
+        elif kind == 'call':
+            ups.setdefault(p[0][1:], []).append((always(bi, 'set'), sl._call_value(f, dd[3], set(), 0)))
+        else:
+            ups.setdefault(p[0][1:], []).append(('other', kind))
+    for tmp, field in refs.items():
+        used = False
+        for c in f.calls:
+            if c.bb not in live or f.blocks[c.bb].get('cleanup'):
+                continue
+            for ai, a in enumerate(c.args):
+                pl = op_place(a)
+                if pl and pl[0] == tmp:
+                    used = True
+                    if ai == 0 and len(c.args) == 2 and c.name in PUSH:
+                        ups.setdefault(field, []).append((always(c.bb, 'push'), sl.operand(f, c.args[1])))
+                    elif ai == 0 and len(c.args) == 2 and c.name in SET_SOME:
+                        # `self.f.replace(x)` / `self.f.insert(x)` leave Some(x) in the field whatever was there
+                        ups.setdefault(field, []).append((always(c.bb, 'set'), ('agg', 'std::option::Option', 'Some', (('0', sl.operand(f, c.args[1])),))))
+                    else:
+                        ups.setdefault(field, []).append(('other', c.name or 'indirect call'))
+        for bi, b in enumerate(f.blocks):
+            if b.get('cleanup') or bi not in live:
+                continue
+            for st in b['s']:
+                if st[0] == '=' and st[1][0] == tmp and len(st[1]) > 1:
+                    used = True
+                    ups.setdefault(field, []).append(('other', 'write through reference'))
+        if not used:
+            ups.setdefault(field, []).append(('other', 'mutable borrow'))
+    if clean and any(k for k in ups if any(op != 'set' for op, _ in ups[k])):
+        return None
+    return ups
+
+
+def some_of(v):
+    """payload of a `Some(..)` literal, else None"""
+    v = strip(v)
+    if v[0] == 'agg' and v[1] == 'std::option::Option' and v[2] == 'Some' and len(v[3]) == 1:
+        return strip(v[3][0][1])
+    return None
+
+
+def empty_init(v):
+    """v is an empty Option / Vec: None, Default::default(), Vec::new()"""
+    v = strip(v)
+    if v[0] == 'agg' and v[1] == 'std::option::Option' and v[2] == 'None':
+        return True
+    return v[0] == 'call' and not v[2] and isinstance(v[1], str) and \
+        (v[1].endswith(('::default::Default::default', 'Default>::default')) or v[1].startswith('std::vec::Vec::') and v[1].endswith('::new'))
+
+
+def constructors(prog, adt, crate='libcnb'):
+    """paths of the functions of `crate` that build a value of enum / struct `adt`"""
+    out = set()
+    for f in prog.fns.values():
+        if f.crate != crate:
+            continue
+        for b in f.blocks:
+            for st in b['s']:
+                if st[0] == '=' and st[2]['r'] == 'agg' and st[2].get('adt') == adt:
+                    out.add(f.path)
+    return out
+
+
+# ---- positions of argv (R3 argmap / argv identity, R2 exact name) ----------------------------------------
+_IDX = re.compile(r'^\[(\d+)\]$')
+_IDXL = re.compile(r'^\[_(\d+)\]$')
+# element-wise, order-preserving adapters of arrays / options around a positional list
+ELEMWISE = ('each_ref', 'each_mut', 'as_slice', 'as_ref', 'ok', 'ok_or', 'ok_or_else', 'to_vec', 'to_owned', 'iter', 'into_iter', 'as_deref')
+CONVERTERS = ('::from', '::into', '::to_path_buf', '::clone', '::to_owned', '::new', '::to_string', '::as_str', '::as_ref')
+
+
+def _last(name):
+    return name.rsplit('::', 1)[-1] if isinstance(name, str) else ''
+
+
+def elem_pos(prog, sl, v, root, own_fn=None):
+    """k when v is (a string / path conversion of) element k of the slice `root`, looked at through slice patterns,
+    constant indexing, get / first, split_first rests, slice -> array conversions and element-wise maps with a
+    conversion function; None when v is anything else"""
+    v = strip(v)
+    k = base = None
+    if v[0] == 'index' and isinstance(v[2], str) and _IDX.match(v[2]):
+        k, base = int(_IDX.match(v[2]).group(1)), v[1]
+    elif v[0] == 'index' and isinstance(v[2], str) and _IDXL.match(v[2]) and own_fn is not None:
+        # `args[i]` with the index held in a local of own_fn (the caller vouches that v was computed in own_fn)
+        iv = strip(sl.local(own_fn, int(_IDXL.match(v[2]).group(1))))
+        if iv[0] == 'const' and isinstance(iv[1], int):
+            k, base = iv[1], v[1]
+    elif v[0] == 'call' and _last(v[1]) == 'index' and len(v[2]) == 2 and strip(v[2][1])[0] == 'const' and isinstance(strip(v[2][1])[1], int):
+        k, base = strip(v[2][1])[1], v[2][0]
+    elif v[0] == 'call' and _slice_meth(v, ('get', 'get_mut')) and len(v[2]) == 2 and strip(v[2][1])[0] == 'const' and isinstance(strip(v[2][1])[1], int):
+        k, base = strip(v[2][1])[1], v[2][0]
+    elif v[0] == 'call' and _slice_meth(v, ('first', 'first_mut')) and len(v[2]) == 1:
+        k, base = 0, v[2][0]
+    elif v[0] == 'field' and v[2] == '0' and strip(v[1])[0] == 'call' and _slice_meth(strip(v[1]), ('split_first', 'split_first_mut')):
+        k, base = 0, strip(v[1])[2][0]
+    if k is None or isinstance(k, bool):
+        return None
+    lf = LenFacts(prog, sl)
+    for _ in range(12):
+        b = base
+        while b[0] == 'updated':
+            b = b[1]
+        if b == root:
+            return k
+        t = lf.term(b)
+        if t is not None and t[0] == root:
+            return k - t[1]
+        s = strip(b)
+        if s == root:
+            return k
+        if s[0] == 'call' and s[2] and _last(s[1]) in ELEMWISE and len(s[2]) == 1:
+            base = s[2][0]
+            continue
+        if s[0] == 'call' and _last(s[1]) == 'map' and len(s[2]) == 2 and strip(s[2][1])[0] == 'fnitem' and strip(s[2][1])[1].endswith(CONVERTERS):
+            base = s[2][0]
+            continue
+        if s is not b and s != b:
+            base = s
+            continue
+        return None
+    return None
+
+
+ARGV_SAME = ('collect', 'as_slice', 'as_ref', 'deref', 'borrow', 'as_mut_slice', 'to_vec', 'clone', 'into_boxed_slice')
+
+
+def is_argv(v):
+    """v is the complete argument vector of the process: `env::args()` collected, looked at through views that keep
+    every element in place"""
+    v = strip(v)
+    for _ in range(8):
+        if v[0] == 'call' and v[1] == 'std::env::args' and not v[2]:
+            return True
+        if v[0] == 'call' and len(v[2]) == 1 and _last(v[1]) in ARGV_SAME:
+            v = strip(v[2][0])
+            continue
+        return False
+    return False
+
+
+# what may sit between argv and the string compared with "detect" / "build": selecting the first argument, taking the
+# final path component and viewing it as text
+NAME_STEPS = ('std::ffi::OsStr::to_str', 'std::path::Path::file_name', 'core::slice::<impl [T]>::first', 'std::iter::Iterator::collect',
+              'std::path::Path::new', 'std::ffi::OsStr::to_string_lossy', 'std::ffi::OsStr::new', 'std::path::PathBuf::as_path',
+              'std::string::String::as_str', 'std::path::Path::as_os_str', 'std::vec::Vec::<T, A>::as_slice', 'std::iter::Iterator::next',
+              'std::env::args', 'std::borrow::Cow::<\'_, B>::as_ref')
+
+
+def name_spine(v):
+    """(names of the calls between the compared value and `env::args()` along the receiver spine, reached argv?)"""
+    names = []
+    for _ in range(24):
+        while v[0] in ('unwrap', 'updated'):
+            v = v[1]
+        if v[0] == 'index' and v[2] == '[0]':
+            names.append('core::slice::<impl [T]>::first')
+            v = v[1]
+            continue
+        if v[0] != 'call':
+            return names, False
+        names.append(v[1])
+        if v[1] == 'std::env::args':
+            return names, True
+        if not v[2]:
+            return names, False
+        v = v[2][0]
+    return names, False
+
+
+# ---- interprocedural "always and checked" (R4 writes that were moved into helpers) ------------------------
+TRUNCATING = ('std::fs::write', 'std::fs::File::create')
+
+
+def chain_always(E, prog, e, first=1):
+    """[] when, in every workspace function between the entry function and the std call of effect e, the next call of
+    the chain is made on every way to that function's success (from chain level `first` on: the levels above are the
+    ones that hold the "was it provided" decision and are judged by the caller) and its failure cannot end in that
+    success (closures: only the latter); else the reasons"""
+    from .lib.discard import ok_on_success
+    bad = []
+    levels = list(e.chain) + [e.call]
+    for i in range(1, len(levels)):
+        c = getattr(levels[i], 'call', levels[i])
+        g = c.fn
+        sites = [st.bb for st in E.sites(g)]
+        if g.kind != 'Closure' and i >= first:
+            if not sites or not any(x.bb == c.bb for x, _ in E.must_calls(g, sites)):
+                bad.append('%s can succeed without calling %s' % (g.path.split('::')[-1], _last(c.name or '?')))
+        if c.dty and c.dty.startswith(('std::result::Result<', 'std::option::Option<')) and not ok_on_success(prog, g, c, sites or None):
+            bad.append('%s can succeed although %s failed' % (g.path.split('::')[-1], _last(c.name or '?')))
+        if g.kind != 'Closure' and sites:
+            # the other fallible steps of the helper (serialising the value, opening the file, ..): a failure there
+            # must not end in the helper's success either, or "written" stops meaning "the provided value was written"
+            for x, _fa in E.must_calls(g, sites):
+                if x is c or x.indirect or not (x.dty or '').startswith('std::result::Result<'):
+                    continue
+                if not ok_on_success(prog, g, x, sites):
+                    bad.append('%s can succeed although %s failed' % (g.path.split('::')[-1], _last(x.name or '?')))
+    return bad
+
+
+# ---- errors of a phase are returned, not raised (R4) ------------------------------------------------------
+PANICKING_CALLS = ('std::option::Option::<T>::unwrap', 'std::result::Result::<T, E>::unwrap', 'std::option::Option::<T>::expect',
+                   'std::result::Result::<T, E>::expect', 'std::result::Result::<T, E>::unwrap_err', 'std::result::Result::<T, E>::expect_err',
+                   'std::result::Result::<T, E>::unwrap_unchecked', 'std::option::Option::<T>::unwrap_unchecked')
+PANIC_FNS = ('core::panicking::panic', 'core::panicking::panic_fmt', 'std::rt::begin_panic', 'core::panicking::panic_display',
+             'core::panicking::unreachable_display', 'core::panicking::panic_explicit', 'std::rt::panic_fmt')
+
+
+def raised_errors(prog, sl, fns):
+    """[(Call, what)] for the places in fns where a failure is turned into a panic / a diverging handler instead of
+    being returned: unwrap / expect on a value that is not a literal success, explicit panics, `unwrap_or_else(<handler
+    that never returns>)`"""
+    out = []
+    for f in fns:
+        live = f.reachable(0)
+        for c in f.calls:
+            if c.indirect or c.bb not in live or f.blocks[c.bb].get('cleanup'):
+                continue
+            names = c.names()
+            if names & set(PANICKING_CALLS):
+                r = sl.operand(f, c.args[0])
+                while r[0] == 'updated':
+                    r = r[1]
+                if r[0] == 'agg' and r[2] in ('Some', 'Ok'):
+                    continue
+                out.append((c, '%s on a fallible value' % _last(c.name)))
+            elif names & set(PANIC_FNS):
+                out.append((c, 'explicit panic'))
+            elif _last(c.name or '') in ('unwrap_or_else', 'map_or_else', 'or_else') and (c.decl or '').startswith(('std::result::Result::', 'std::option::Option::')):
+                for a in c.args[1:]:
+                    if diverging_handler(prog, sl.operand(f, a)):
+                        out.append((c, 'handler that never returns'))
+    return out
+
+
+# ---- SBOM path function (R4) --------------------------------------------------------------------------
+def sbom_path_shape(prog, sl, f):
+    """(problems, table) for `cnb_sbom_path(format, dir, name)`: the result is `dir` joined with ONE component built from
+    `name` and a per-format text that is defined for every format and different for any two formats"""
+    v = strip(sl.inline_deep(sl.local(f, 0)))
+    probs = []
+    if not (v[0] == 'call' and v[1] in ('std::path::Path::join', 'std::path::PathBuf::join') and len(v[2]) == 2):
+        return ['result is not <dir>.join(<file name>): %s' % v[0]], {}
+    if f.argc != 3:
+        return ['unexpected parameter count'], {}
+    par = lambda i: ('param', f.path, i, f.local_name(i + 1))
+    if strip(v[2][0]) != par(1):
+        probs.append('the directory is not the given base directory')
+    name = strip(v[2][1])
+    pieces = list(name[1]) if name[0] == 'fmt' else [p for p in concat_pieces(name)]
+    if not any(isinstance(p, tuple) and strip(p) == par(2) for p in pieces):
+        probs.append('the file name does not contain the given base name')
+    if any(isinstance(p, str) and ('/' in p) for p in pieces):
+        probs.append('the file name contains a path separator')
+    sels = [strip(p) for p in pieces if isinstance(p, tuple) and strip(p)[0] == 'select']
+    table = {}
+    if len(sels) != 1 or strip(sels[0][1]) != par(0):
+        probs.append('no per-format component selected by the given format')
+        return probs, table
+    sel = sels[0]
+    adt = prog.adts.get(sel[2])
+    allv = sorted(x['name'] for x in adt['variants']) if adt else []
+    for names, val in sel[3]:
+        val = strip(val)
+        for n in names:
+            table[n] = val[1] if val[0] == 'const' else None
+    if sorted(table) != allv or not allv:
+        probs.append('formats covered %s, expected %s' % (sorted(table), allv))
+    vals = list(table.values())
+    if any(x is None for x in vals) or len(set(vals)) != len(vals):
+        probs.append('two formats share a file name: %s' % table)
+    return probs, table
+
+
+def concat_pieces(v):
+    if v[0] == 'concat':
+        yield v[1]
+        for p in v[2]:
+            yield p
+    else:
+        yield v
+
+
+# ---- which file-system changes count as "outputs" (R4 no-other-mutation) ---------------------------------------
+PATH_STEPS = ('join', 'parent', 'with_file_name', 'with_extension', 'to_path_buf', 'as_path', 'new', 'from')
+
+
+def elsewhere(v, fn):
+    """the path value v names a fixed absolute location that does not depend on the phase's arguments (e.g. the
+    telemetry directory under /tmp of the `trace` feature): not one of the places the lifecycle passes / observes"""
+    if v is None:
+        return False
+    if any(x[0] == 'param' and x[1] == fn.path for x in walk(v)):
+        return False
+    v = strip(v)
+    for _ in range(12):
+        if v[0] == 'const':
+            return isinstance(v[1], str) and v[1].startswith('/')
+        if v[0] == 'call' and v[2] and _last(v[1]) in PATH_STEPS:
+            v = strip(v[2][0])
+            continue
+        return False
+    return False
